@@ -106,6 +106,50 @@ pub fn deep_elision(c: &mut Ctx, b: &Budget, prop: &str) {
     }
 }
 
+/// the special shapes as *targets* of the elision walk, alone (the root) and embedded as subject and as object of a host, both
+/// modes, all three actions; for C08 the encrypted placeholder must open to the identical element
+pub fn special_elision(c: &mut Ctx, b: &Budget, prop: &str) {
+    let cfg = GenCfg::default();
+    for _ in 0..(if b.thorough { 8 } else { 2 }) {
+        c.begin("special-targets");
+        for (name, r) in special_shapes(c) {
+            let shape_env = match c.env(&r) { Some(e) => e, None => continue };
+            let p = gen_leaf(c, &cfg); let a = c.assign(&format!("assertion {} {}", p, r)); let s0 = gen_leaf(c, &cfg);
+            let host_obj = c.assign(&format!("add {} {}", s0, a));
+            let extra = gen_assertion(c, &cfg, 0);
+            let host_subj = { let w = c.assign(&format!("wrap {}", r)); c.assign(&format!("add {} {}", w, extra)) };
+            for host in [r.clone(), host_obj, host_subj] {
+                let orig = match c.env(&host) { Some(e) => e, None => continue };
+                let tset: HashSet<Digest> = [shape_env.digest().into_owned()].into_iter().collect();
+                for act in ["elide".to_string(), "compress".to_string(), format!("encrypt:{}", KEY1)] {
+                    let a0 = act.split(':').next().unwrap().to_string();
+                    let res = c.assign(&format!("elide_set {} rem {} {}", host, act, r));
+                    c.no_panic(&res, "obscuring");
+                    let re = match c.env(&res) { Some(x) => x, None => continue };
+                    c.obs(&format!("shape {}", res));
+                    match prop {
+                        "C02" => { let v = crate::props::check_positions(&orig, &re); c.check("digests-preserved", v.is_ok(), "digests-preserved", || format!("{} targeted ({}): {}", name, a0, v.unwrap_err())); }
+                        "C03" => { let v = check_elision(&orig, &re, &tset, false, &a0); c.check("hides-exactly-targets", v.is_ok(), "hides-exactly-targets", || format!("{} targeted ({}): {}: {} -> {}", name, a0, v.unwrap_err(), shape(&orig), shape(&re))); }
+                        "C08" if a0 == "encrypt" => {
+                            // the placeholder at the topmost position of the target is an encrypted element that opens to the very element
+                            for (pp, x) in elements(&orig) {
+                                if x.digest() != shape_env.digest() || x.is_obscured() { continue; }
+                                if let Some(ph) = path_at(&re, &pp) {
+                                    let opened = guarded(|| ph.decrypt_subject(&bc_components::SymmetricKey::from_data_ref(hex::decode(KEY1).unwrap()).unwrap()).ok());
+                                    c.check("action-encrypt-roundtrip", ph.is_encrypted() && matches!(&opened, Ok(Some(o)) if o.is_identical_to(&x)), "action-encrypt-roundtrip", || format!("{} targeted with the Encrypt action at {}: placeholder {} opens to {:?}", name, pp, shape(&ph), opened.as_ref().map(|o| o.as_ref().map(shape))));
+                                }
+                                break;
+                            }
+                        }
+                        _ => {}
+                    }
+                }
+            }
+        }
+        c.end();
+    }
+}
+
 /// the special shapes (gen::special_shapes) through the operation each property is about
 pub fn special_other(c: &mut Ctx, b: &Budget, prop: &str) {
     for round in 0..(if b.thorough { 12 } else { 3 }) {
@@ -421,6 +465,17 @@ pub fn c08(c: &mut Ctx, b: &Budget) {
                     let okn = c.is_ok(&dn);
                     c.check("misdeclared-rejected", !okn, "misdeclared-rejected", || format!("content declared under its digest with byte {} changed was accepted on decrypt", k));
                     c.count("branch:near-miss-declaration");
+                }
+                // permutations of the true digest's bytes (equal as multisets, equal under any byte-wise checksum)
+                for kind in ["swap", "rot", "rev", "swapfar"] {
+                    let mp = c.assign(&format!("misdeclare_perm {} {} {} {}", subj, kind, KEY1, nonce));
+                    if !c.is_ok(&mp) { continue; }
+                    for host in [mp.clone(), { let a = gen_assertion(c, &cfg, 0); c.assign(&format!("add {} {}", mp, a)) }] {
+                        let dp = c.assign(&format!("decrypt_subject {} {}", host, KEY1));
+                        let okp = c.is_ok(&dp);
+                        c.check("misdeclared-rejected", !okp, "misdeclared-rejected", || format!("content declared under a permutation ({}) of its digest's bytes was accepted on decrypt", kind));
+                    }
+                    c.count("branch:permuted-declaration");
                 }
                 // ... also as the subject of a node
                 let a = gen_assertion(c, &cfg, 0);
@@ -765,6 +820,13 @@ pub fn c13(c: &mut Ctx, b: &Budget) {
             let ok = c.is_ok(&u);
             c.check("misdeclared-rejected", !ok, "misdeclared-rejected", || format!("content declared under its digest with byte {} changed was accepted on uncompress", k));
             c.count("branch:near-miss-declaration");
+        }
+        for kind in ["swap", "rot", "rev", "swapfar"] {
+            let mp = c.assign(&format!("miscompress_perm {} {}", e, kind));
+            if !c.is_ok(&mp) { continue; }
+            let u = c.assign(&format!("uncompress {}", mp));
+            let ok = c.is_ok(&u);
+            c.check("misdeclared-rejected", !ok, "misdeclared-rejected", || format!("content declared under a permutation ({}) of its digest's bytes was accepted on uncompress", kind));
         }
         if let Some(zz) = c.env(&z) { if zz.is_compressed() { corrupt_compressed(c, &zz); } }
         c.end();
